@@ -172,6 +172,18 @@ pub fn check_c07(case: &BuildCase, run: &BuildRun) -> Option<Violation> {
             first_diff(got, &refb),
         );
     }
+    // ... and they were all there when finish returned, not only after the
+    // caller dropped its writer
+    if run.durable_at_return != run.sink.durable.len() {
+        return v(
+            "C07.I2.bytes_missing_from_sink_when_finish_returned",
+            format!(
+                "finish returned Ok with {} of {} bytes in the sink; the rest only arrived when the writer was dropped",
+                run.durable_at_return - run.sink.prefill,
+                got.len()
+            ),
+        );
+    }
     if run.sink.durable[..run.sink.prefill] != case.prefill[..] {
         return v(
             "C07.I2.prefill_disturbed",
